@@ -2,6 +2,7 @@ import Driver.Borders
 import Driver.Escape
 import Driver.Layout
 import Driver.Paginate
+import Driver.Rtf
 import Driver.Util
 import Driver.Validate
 import Driver.Widths
